@@ -1047,6 +1047,12 @@ TRANSLATOR_MODULES.append("rs2lean_genavl")
 GEN_SRC.update({n: gen_src(n) for n in ("SrcAvl",)})
 EXTRACTORS["C07"] = EXTRACTORS["C07"] + [GEN_SRC["SrcAvl"]]
 
+# genlong: the rest of the Myers matchers (C09/C10) — tools/rs2lean_genlong.py (on top of rs2lean_pm.py): `States::new`, `known_dist`,
+# the glue of long.rs, `Matches::new/next` + `distance` at the long.rs instance of `impl_myers!`; Thm/C09.lean restates the theorems
+TRANSLATOR_MODULES.append("rs2lean_genlong")
+GEN_SRC.update({n: gen_src(n) for n in ("SrcMyersHelpers", "SrcMyersLongNew", "SrcMyersLongMatches")})
+EXTRACTORS["C09"] = EXTRACTORS["C09"] + [GEN_SRC[n] for n in ("SrcMyersHelpers", "SrcMyersLongNew", "SrcMyersLongMatches")]
+
 
 def main():
     ap = argparse.ArgumentParser()
